@@ -205,7 +205,7 @@ class Engine:
             self.store(st, cond, self.ctx.wrap(self.imm(o.expr)), self.ctx.W, v, what)
 
     # ---- running --------------------------------------------------------------------------------------------
-    def run(self, pc, st, cond):
+    def run(self, pc, st, cond, entry=True):
         c = self.ctx
         while True:
             self.steps += 1
@@ -213,6 +213,12 @@ class Engine:
                 raise EngineError('step budget exhausted (unbounded loop in fragment? add a cut label)')
             if pc >= len(self.ins):
                 return [Leaf(cond, 'exit', '<end>', st)]
+            if not entry and c.cut_labels:
+                # control *falls* into a cut label: same as jumping to it (the run started at a cut label passes it once)
+                hit = [n for n, p in self.labels.items() if p == pc and n in c.cut_labels]
+                if hit:
+                    return [Leaf(cond, 'exit', hit[0], st)]
+            entry = False
             i = self.ins[pc]; op = i.op; A = i.args; txt = i.text.decode('latin1')
             if op == 'opaque':
                 info = c.children[int(A[0].expr)]
@@ -222,7 +228,7 @@ class Engine:
                     if c2 and not self.sat(c3):
                         continue
                     if kind == 'normal':
-                        out += self.run(pc + 1, st2, c3)
+                        out += self.run(pc + 1, st2, c3, entry=False)
                     elif kind == 'goto':
                         out += self.jump_value(tgt, st2, c3)
                     else:
@@ -239,10 +245,10 @@ class Engine:
                 nc = cond + [z3.Not(hc)]
                 if not self.sat(nc):
                     return out
-                return out + self.run(pc + 1, st, nc)
+                return out + self.run(pc + 1, st, nc, entry=False)
             if op == 'j':
                 saved = st.copy()
-                ft = self.run(pc + 1, st.copy(), cond)
+                ft = self.run(pc + 1, st.copy(), cond, entry=False)
                 out = []
                 for l in ft:
                     if l.kind == 'bot':
@@ -313,6 +319,10 @@ class Engine:
         return self.jump_value(self.val(st, cond, o, txt), st, cond)
 
     def jump_label(self, n, st, cond):
+        if n in isa.TERMINAL and getattr(self.ctx, 'use_stub_contracts', True):
+            # modular: a jump to a terminal stub is replaced by the stub's contract (proved on the library text itself)
+            st = st.copy(); st.trace = st.trace + tuple(('flag', f) for f in isa.TERMINAL[n])
+            return [Leaf(cond, 'term', n, st)]
         if n in self.labels and n not in self.ctx.cut_labels:
             return self.run(self.labels[n], st, cond)
         if n == 'halt':
@@ -326,7 +336,8 @@ class Engine:
         """indirect jump: case split over the fragment's own labels and `halt`; the rest is an 'ijump' leaf"""
         c = self.ctx
         out = []; rest = list(cond)
-        for n in ['halt'] + [n for n in self.labels]:
+        ok = getattr(c, 'indirect_targets', None) or (lambda n: n == 'halt' or n.startswith(('try_handler', 'end_call')))
+        for n in [n for n in ['halt'] + list(self.labels) if ok(n)]:
             eq = v == c.label(n)
             if self.sat(cond + [eq]):
                 out += self.jump_label(n, st.copy(), cond + [eq])
